@@ -244,6 +244,9 @@ def parse_template(path: str):
             while i < len(lines):
                 s2 = lines[i].strip()
                 tl2 = i + 1
+                if s2.startswith('//') and not s2.startswith('//@'):
+                    i += 1
+                    continue   # plain comment inside a directive block
                 if not s2.startswith('//@'):
                     raise LostAnchor(f'template line {tl2}: expected //@ directive line inside //@fn block')
                 body = s2[3:]
@@ -671,7 +674,13 @@ def strip_item(rf: RepoFile, it: Item, rules: dict, pub_fields=True) -> list[Edi
         if t.kind == 'punct' and t.text == '#' and i + 1 < len(ct) and ct[i + 1].text == '[':
             k = match_close(ct, i + 1)
             nl = '\n' * rf.src.count('\n', t.start, ct[k].end)
-            edits.append(Edit(t.start - base, ct[k].end - base, nl, None))
+            atext = rf.src[t.start:ct[k].end]
+            keep = ''
+            if t.start < it.start and re.search(r'derive\s*\(', atext) and re.search(r'\bCopy\b', atext):
+                # R1c: a type that is Copy in /repo stays Copy (moves out of shared references depend on it)
+                keep = '#[derive(Clone, Copy)]'
+                rules['R1c'] = rules.get('R1c', 0) + 1
+            edits.append(Edit(t.start - base, ct[k].end - base, keep + nl, None))
             rules['R1'] = rules.get('R1', 0) + 1
             i = k + 1
             continue
